@@ -113,6 +113,7 @@ type Exec struct {
 	probes     map[string][]probeRec
 	inProbe    bool
 	nsamples   int
+	ncross     int
 	unitFloats map[*Term]bool
 	vbounds    map[*Term]ival
 	shared     int
@@ -554,6 +555,7 @@ func (e *Exec) obligation(fail *Term, kind, msg string) {
 	r := e.check(fail)
 	switch r {
 	case "unsat":
+		e.sampleCross("unsat")
 		e.solver.Pop()
 		e.st.Discharged++
 		return
@@ -577,6 +579,21 @@ func (e *Exec) obligation(fail *Term, kind, msg string) {
 		panic(pathEnd{"violation", msg})
 	}
 	e.assertPC(Not(fail))
+}
+
+// sampleCross keeps the script of a few decided obligations per worker for re-decision by the
+// other installed solvers at the end of the run (DESIGN §4.4).
+func (e *Exec) sampleCross(want string) {
+	if e.ncross >= e.sh.crossPerWorker {
+		return
+	}
+	// sample sparsely: obligations 1, 10, 100, ... and every 997th
+	n := e.st.Obligations
+	if !(n == 1 || n == 10 || n == 100 || n%997 == 0) {
+		return
+	}
+	e.ncross++
+	e.sh.addCross(crossSample{script: e.solver.ScriptSnapshot(), want: want, harness: e.cfg.Harness})
 }
 
 // classifyViolation is entered with the solver scope of Check(fail) open (sat).
